@@ -167,6 +167,7 @@ def load_corpus(pid):
 def replay_text(pid, s, detail, extra=""):
     lines = ["# property %s" % pid, "# " + detail.replace("\n", " ")[:1500]]
     if extra: lines += ["# " + x for x in extra.split("\n")]
+    if getattr(s, "note", ""): lines.append("# " + s.note)
     lines.append("# replay: ./check %s --replay <this file>   (commands prefixed with ~ are fidelity-only)" % pid)
     for h in (getattr(s, "history", None) or []):
         # scenarios that ran before in the same process and are needed for the failure; `reset` separates scenarios
@@ -206,6 +207,18 @@ def generic_check(pid, tier, seed, mod):
         vlib.write_evidence(pid, tier, seed, cov, time.time() - t0, 1)
         print("VIOLATION property=%s replay=%s no-failing-input-found" % (pid, p))
         return 1
+
+    # further builds of the same driver (e.g. MemorySanitizer): only their reports count, the results were compared above
+    extra_flavour = {}
+    for fl in getattr(mod, "EXTRA_FLAVOURS", []):
+        try:
+            i2, _l2 = vlib.run_impl([s.cmds for s in scens], flavour=fl)
+        except vlib.BuildError as be:
+            notes.append("the %s build of the driver failed: %s" % (fl, str(be)[-400:])); continue
+        for s, (il2, v2) in zip(scens, i2):
+            if v2 and not v2.startswith("missing"):
+                viol.append((s, "%s build: %s" % (fl, v2.split("|")[0]))); extra_flavour[id(s)] = fl
+        cov.setdefault("extra_flavours", []).append(fl)
 
     fidelity = []
     distinct = set()
@@ -251,15 +264,22 @@ def generic_check(pid, tier, seed, mod):
                 notes.append("known finding %s could not be replayed: %r" % (f["id"], e))
         out_lines.append("KNOWN-FINDING: property=%s %s" % (pid, f["what"]))
 
-    def fails(sc):
+    def fails(sc, fl=None):
+        if fl:
+            ii, _ = vlib.run_impl([sc.cmds], flavour=fl)
+            return bool(ii[0][1])
         mm, ii, _ = run_all([sc], flavour=flavour)
         k, _d = judge(sc, mm[0], ii[0][0], ii[0][1], oracle)
         return k == "violation"
 
     if unknown:
         s, det = unknown[0]
+        xfl = extra_flavour.get(id(s))
         try:
-            if fails(s): s = minimise(s, fails)
+            if xfl:
+                if fails(s, xfl): s = minimise(s, lambda sc: fails(sc, xfl))
+                s.note = "build flavour: " + xfl
+            elif fails(s): s = minimise(s, fails)
             else:
                 h = find_history(scens, s, flavour, oracle)
                 if h is not None: s.history = h
@@ -328,6 +348,10 @@ def replay(pid, path, mod):
     kind, det = judge(s, m[0], i[0][0], i[0][1], getattr(mod, "oracle", None))
     for c, a, b in zip(s.cmds, m[0], i[0][0] + ["<missing>"] * len(m[0])):
         print(c[:100]); print("   model:", a[:300]); print("   impl :", b[:300])
+    for fl in getattr(mod, "EXTRA_FLAVOURS", []):
+        i2, _ = vlib.run_impl([s.cmds], flavour=fl)
+        if i2[0][1]:
+            print("%s build: %s" % (fl, i2[0][1][:1500])); kind = "violation"
     if kind == "violation":
         print("VIOLATION property=%s replay=%s" % (pid, path)); return 1
     print("replay: no violation (%s)" % (kind or "agrees")); return 0
